@@ -308,7 +308,7 @@ class Element:
 
     def __rmul__(self, other):
         """Right multiply with other operators."""
-        return NumericalMultiplicationOperator(other, self)
+        return NumericalMultiplicationOperator(self, other)
 
     def __add__(self, other):
         """Left add with other operators."""
